@@ -304,7 +304,7 @@ def verdict(line, io, mo):
     if fails:
         return fails
     c = m.get("cmp", "")
-    if c.startswith("BAD") or c.startswith("model-ERR") or mo.startswith("bad") or mo.startswith("ERR"):
+    if c.startswith("BAD") or c.startswith("model-ERR") or c.startswith("noobs") or mo.startswith("bad") or mo.startswith("ERR"):
         return ("broken", "corr:" + topic, "model and implementation disagree on %s: %s" % (topic, (c or mo)[:300]))
     if topic == "vps" and m.get("wf") == "BAD":
         return ("broken", "contract:vptree-build", "the dumped tsne::VpTree violates the construction contract (nth_element partition)")
